@@ -301,7 +301,8 @@ pub fn eval_c10(sc: &Scenario, h: &History, _signed: &Signeds, out: &mut Outcome
         out.nontrivial = true;
         out.count("c10.evaluated", 1);
         let mut seen_ptr: BTreeSet<(u64, u64)> = BTreeSet::new();
-        let mut matched: BTreeSet<u32> = BTreeSet::new();
+        // positions (in `attaches`) of the attachments a redeemer of the witness set was resolved to
+        let mut matched: BTreeSet<usize> = BTreeSet::new();
         for r in &reds {
             out.count("c10.redeemers_checked", 1);
             if !seen_ptr.insert((r.tag, r.index)) {
@@ -317,18 +318,30 @@ pub fn eval_c10(sc: &Scenario, h: &History, _signed: &Signeds, out: &mut Outcome
                     continue;
                 }
             };
-            let att = match attaches.iter().find(|a| a.red == red_id) {
-                Some(a) => a,
-                None => {
-                    out.violate("C10.pointer_target", "redeemer_without_attachment", format!("op {}: redeemer payload {} was never attached (or its attachment was replaced)", b.op, red_id));
-                    continue;
-                }
-            };
-            matched.insert(red_id);
+            // two uses of one script may carry the same redeemer payload: every attachment with this payload is a
+            // candidate, the pointer has to fit one that no other redeemer was resolved to yet
+            let cands: Vec<usize> = attaches.iter().enumerate().filter(|(_, a)| a.red == red_id).map(|(p, _)| p).collect();
+            if cands.is_empty() {
+                out.violate("C10.pointer_target", "redeemer_without_attachment", format!("op {}: redeemer payload {} was never attached (or its attachment was replaced)", b.op, red_id));
+                continue;
+            }
             let idx = r.index as usize;
             let tagname = ["spend", "mint", "cert", "reward", "vote", "propose"].get(r.tag as usize).cloned().unwrap_or("?");
-            let wrong = |out: &mut Outcome, class: &str, detail: String| out.violate("C10.pointer_target", class, format!("op {}: redeemer {} attached to {:?} carries pointer ({},{}) {}", b.op, red_id, short(&att.purpose), tagname, idx, detail));
-            match (&att.purpose, r.tag) {
+            let mut problems: Vec<(String, String)> = vec![];
+            let mut resolved: Option<usize> = None;
+            for cp in &cands {
+              if matched.contains(cp) {
+                  continue;
+              }
+              let att = &attaches[*cp];
+              let mut found: Option<(String, String)> = None;
+              {
+              let mut wrong = |_o: &mut Outcome, class: &str, detail: String| {
+                  if found.is_none() {
+                      found = Some((class.to_string(), format!("op {}: redeemer {} attached to {:?} carries pointer ({},{}) {}", b.op, red_id, short(&att.purpose), tagname, idx, detail)));
+                  }
+              };
+              match (&att.purpose, r.tag) {
                 (Purpose::Spend(hh, ix), 0) => match inputs.get(idx) {
                     Some(i) if i.0 == *hh && i.1 == *ix => {
                         // must be script locked
@@ -394,11 +407,29 @@ pub fn eval_c10(sc: &Scenario, h: &History, _signed: &Signeds, out: &mut Outcome
                     None => wrong(out, "propose_pointer_out_of_range", format!("but there are {} proposals", props.len())),
                 },
                 _ => wrong(out, "pointer_wrong_purpose", "whose tag does not match the purpose it was attached to".into()),
+              }
+              }
+              match found {
+                  None => {
+                      resolved = Some(*cp);
+                      break;
+                  }
+                  Some(p) => problems.push(p),
+              }
+            }
+            match resolved {
+                Some(cp) => {
+                    matched.insert(cp);
+                }
+                None => match problems.into_iter().next() {
+                    Some((class, detail)) => out.violate("C10.pointer_target", &class, detail),
+                    None => out.violate("C10.pointer_target", "redeemer_without_attachment", format!("op {}: more redeemers with payload {} than attachments", b.op, red_id)),
+                },
             }
         }
         // every live attachment whose item is in the transaction has its redeemer
-        for a in &attaches {
-            if matched.contains(&a.red) {
+        for (ap, a) in attaches.iter().enumerate() {
+            if matched.contains(&ap) {
                 continue;
             }
             let present = match &a.purpose {
@@ -921,6 +952,34 @@ pub fn eval_c20(sc: &Scenario, h: &History, _signed: &Signeds, out: &mut Outcome
                 let b2 = builder.get_implicit_input().ok().map(|v| u64::from(v.coin()));
                 if a != b2 {
                     out.violate("C20.same_sequence", "helper_and_builder_differ_on_the_same_withdrawal_calls", format!("op {}: get_implicit_input on a body whose withdrawal map was filled by the history's {} set/replace calls = {:?}, the builder's figure = {:?}", op, calls, a, b2));
+                }
+            }
+        }
+        // the same proposals in the typed collection, filled the way a peer would: the first ones decoded from a
+        // tagged set, the rest added one by one - and the first one handed over again (it must not count twice)
+        if let Some(props) = body.voting_proposals() {
+            if props.len() >= 1 {
+                let k1 = (props.len() + 1) / 2;
+                let mut first = csl::VotingProposals::new();
+                for i in 0..k1 {
+                    first.add(&props.get(i));
+                }
+                if let Ok(mut typed) = csl::VotingProposals::from_bytes(first.to_bytes()) {
+                    for i in k1..props.len() {
+                        typed.add(&props.get(i));
+                    }
+                    typed.add(&props.get(0));
+                    let mut body2 = csl::TransactionBody::new_tx_body(&csl::TransactionInputs::new(), &csl::TransactionOutputs::new(), &csl::BigNum::from(0u64));
+                    body2.set_voting_proposals(&typed);
+                    if let Some(cs) = body.certs() {
+                        body2.set_certs(&cs);
+                    }
+                    out.count("c20.same_sequence_proposal_bodies_checked", 1);
+                    let a = csl::get_deposit(&body2, &csl::BigNum::from(k.pool_deposit), &csl::BigNum::from(k.key_deposit)).ok().map(u64::from);
+                    let b2 = builder.get_deposit().ok().map(u64::from);
+                    if a != b2 {
+                        out.violate("C20.same_sequence", "helper_and_builder_differ_on_the_same_proposals", format!("op {}: get_deposit on a body whose proposal set was decoded, extended and handed the first proposal again = {:?}, the builder's figure = {:?}", op, a, b2));
+                    }
                 }
             }
         }
